@@ -9,7 +9,7 @@ import (
 	"verifharness/stats"
 )
 
-const ruleC01 = "rapid state machine: generated table schema (hash-only / hash+range, S/N/B keys), then Put / UpdateItem (SET, REMOVE, ADD, DELETE, upsert of absent keys) / DeleteItem (with and without ALL_OLD) / GetItem over a pool of 3-6 keys, executed on the SDK v1 and v2 clients and on the reference map model; after every step GetItem of every pool key, a full Scan, DescribeTable.ItemCount and the SortedKeys/Data white-box invariant are compared. Non-trivial = history touching >= 2 distinct keys and containing an overwrite, a delete-then-reput, an update-created item or a delete of an absent key; distinct = distinct hash of the executed operation list."
+const ruleC01 = "rapid state machine: generated table schema (hash-only / hash+range, S/N/B keys), then Put / UpdateItem (SET, REMOVE, ADD, DELETE, upsert of absent keys) / DeleteItem (with and without ALL_OLD) / GetItem over a pool of 3-6 keys, a fifth of the writes carrying a generated condition, executed on the SDK v1 and v2 clients and on the reference map model; after every step GetItem of every pool key, a full Scan, DescribeTable.ItemCount and the SortedKeys/Data white-box invariant are compared. Non-trivial = history touching >= 2 distinct keys and containing an overwrite, a delete-then-reput, an update-created item or a delete of an absent key; distinct = distinct hash of the executed operation list."
 
 // TestC01 decides property C01.
 func TestC01(t *testing.T) {
@@ -96,6 +96,34 @@ func TestC01(t *testing.T) {
 						deleted[ck] = true
 					} else {
 						flagDelAbsent = true
+					}
+				}
+			},
+			"condWrite": func(rt *rapid.T) {
+				// the same operations carrying a condition (C05 owns the verdict
+				// of the condition; here the resulting map state matters)
+				op := g.condWriteOp(rt, w.m, false)
+				var key model.Item
+				if op.Kind == "Put" {
+					key = w.m.Tables[s.Table].KeyItem(op.Item)
+				} else {
+					key = op.Key
+				}
+				ck := model.CanonItem(key)
+				existed := stored(w.m, s.Table, key) != nil
+				res, status, f := w.do(op)
+				fail(f)
+				if status == stepDone && res.Err == "" {
+					touched[ck] = true
+					if op.Kind == "Update" && !existed {
+						flagUpsert = true
+					}
+					if op.Kind == "Delete" {
+						if existed {
+							deleted[ck] = true
+						} else {
+							flagDelAbsent = true
+						}
 					}
 				}
 			},
